@@ -67,7 +67,19 @@ def check(ctx):
             core.run_harness(ctx.need_harness(), ["server"] + [str(a) for a in args] + ["-out", t, "-dir", os.path.join(wd, "w")], wd, timeout=3000)
             runner.run_job(ctx, _job(ctx, "chains", "ServerTrace", t, _rerun(args)))
             paths.append(t)
-        c = {"chains": 0, "datagrams": 0, "mutated": 0, "replies": 0, "drops": 0, "probes": 0, "kinds": set(), "mutations": set(), "plugins_seen": set()}
+        # beyond the listed properties: Start / Serve / Wait / Close with real UDP sockets on loopback (drift detector)
+        for cfg in ("Lifecycle_2_0.cfg", "Lifecycle_3_0.cfg", "Lifecycle_3_2.cfg", "Lifecycle_0_0.cfg", "Lifecycle_1_1.cfg"):
+            ctx.design("Lifecycle.tla", cfg, workers=2)
+        wd = ctx.scratch.sub("lifecycle")
+        lt = os.path.join(wd, "life.ndjson")
+        try:
+            core.run_harness(ctx.need_harness(), ["lifecycle", "-seed", ctx.seed, "-out", lt], wd, timeout=600)
+            runner.run_job(ctx, runner.TraceJob("lifecycle", "LifecycleTrace", lt, {"Lens": core.tla_set(["LIFE"])}, boundary=lambda e: e.get("ev") == "lstart", drift=True))
+            lifecycle_lines = sum(1 for _ in open(lt))
+        except Infra as e:
+            ctx.notes.append("lifecycle conformance skipped: %s" % str(e)[:200])
+            lifecycle_lines = 0
+        c = {"lifecycle_events_real_sockets": lifecycle_lines, "chains": 0, "datagrams": 0, "mutated": 0, "replies": 0, "drops": 0, "probes": 0, "kinds": set(), "mutations": set(), "plugins_seen": set()}
         for p in paths:
             for line in open(p):
                 e = json.loads(line)
